@@ -632,6 +632,10 @@ fn stack(out: &mut Vec<GSpec>) {
         ("stack_skip_w", RuleSpec::helper("WHITESPACE", 'S', "PUSH(\" \") ~ \"[\" ~ DROP"), "ab ["),
         ("stack_skip_p", RuleSpec::helper("COMMENT", 'S', "POP ~ \"[\""), "ab#["),
         ("stack_skip_n", RuleSpec::helper("COMMENT", 'N', "PUSH(\"#\") ~ \"[\" ~ DROP"), "ab#["),
+        // skip rules with a net effect on the stack (a push / a drop that stays when the skip is kept, and must
+        // be given back with the skip when the iteration or the lookahead around it is abandoned)
+        ("stack_skip_u", RuleSpec::helper("COMMENT", 'S', "\"#\" ~ PUSH(\"b\")"), "ab#["),
+        ("stack_skip_d", RuleSpec::helper("COMMENT", 'S', "\"#\" ~ DROP"), "ab#["),
     ] {
         let mut rules = vec![skip_rule];
         let bodies = [
@@ -642,6 +646,10 @@ fn stack(out: &mut Vec<GSpec>) {
             "!(\"a\" ~ \"b\") ~ \"a\" ~ PEEK_ALL?",
             "(\"a\" ~ \"b\")? ~ PEEK_ALL ~ \"a\"?",
             "PUSH(\"a\") ~ (\"b\" ~ POP)+",
+            "(\"a\")* ~ PEEK_ALL ~ \"a\"?",
+            "PUSH(\"a\") ~ (\"b\")+ ~ PEEK_ALL",
+            "PUSH(\"a\") ~ !(\"b\" ~ \"b\") ~ \"b\"? ~ PEEK_ALL",
+            "PUSH(\"a\") ~ &(\"b\" ~ \"a\"?) ~ PEEK_ALL? ~ \"b\"",
         ];
         for (k, b) in bodies.iter().enumerate() {
             rules.push(RuleSpec::new(&format!("e{}", k), 'N', b));
@@ -1638,7 +1646,7 @@ pub fn all(out: &mut Vec<GSpec>) {
             "tree" => s.id == "tree_1" || s.id == "tree_2",
             "sub" => true,
             "utf8" => s.id == "utf8_q0" || s.id == "utf8_ws0",
-            "slice" => s.id == "slice_ctx",
+            "slice" => s.id == "slice_ctx" || s.id == "slice_q0",
             _ => false,
         };
         if pick {
